@@ -10,6 +10,7 @@ import MalVerif.Model.Compiler.Parser
 import MalVerif.Model.LangGraph
 import MalVerif.Model.Legacy
 import MalVerif.Model.Neo4j
+import MalVerif.Py.AbsVisitor
 open Lean MalVerif
 
 namespace Drv
@@ -626,6 +627,61 @@ def opNeo4jGraph (j : Json) : R Json := do
                 jB n.necessary, jB n.viable, jsonOfList jS n.compBy, jOptS n.defense]) g.nodes),
             ("rels", jsonOfList (fun (r : Nat × Nat) => Json.arr #[jN r.1, jN r.2]) g.rels)])
 
+/-! ### the parse tree of the model's tree builder and the *translated* visitor on it (C04, visitor domain) -/
+open MalVerif.Py.Visitor in
+mutual
+def ptToJson : PT → Json
+  | .tok t x i => Json.arr #[jS t, jS x, jN i]
+  | .rule n cs => Json.arr (#[jS n] ++ (ptListToJson cs).toArray)
+def ptListToJson : List PT → List Json
+  | [] => []
+  | c :: cs => ptToJson c :: ptListToJson cs
+end
+
+open MalVerif.Py.Visitor in
+mutual
+def vToJson : V → Json
+  | .none => Json.null
+  | .unbound => jS "<unbound>"
+  | .bool b => jB b
+  | .int i => jI i
+  | .num t => jS t
+  | .str s => jS s
+  | .list l => Json.arr (vListToJson l).toArray
+  | .tuple l => Json.arr (vListToJson l).toArray
+  | .dict d => jO (vDictToJson d)
+  | .ctx .. => jS "<ctx>"
+  | .token .. => jS "<token>"
+def vListToJson : List V → List Json
+  | [] => []
+  | v :: vs => vToJson v :: vListToJson vs
+def vDictToJson : List (String × V) → List (String × Json)
+  | [] => []
+  | (k, v) :: r => (k, vToJson v) :: vDictToJson r
+end
+
+/-- the parse tree the model's tree builder makes of a source text (every token must be consumed) -/
+def opTree (j : Json) : R Json := do
+  let src ← jfield jstr j "src"
+  match Mal.lex src with
+  | none => pure (jO [("error", jS "lexer")])
+  | some ts =>
+    match Mal.treeMalRest ts with
+    | some (t, []) => pure (jO [("tree", ptToJson t)])
+    | _ => pure (jO [("error", jS "syntax")])
+
+/-- compile a set of files with the translated visitor on the model's trees -/
+def opVisit (j : Json) : R Json := do
+  let files ← jfield (jlist (fun e => do
+    match (← jarr e) with
+    | [n, t] => pure ((← jstr n), (← jstr t))
+    | _ => throw "bad file")) j "files"
+  let root ← jfield jstr j "root"
+  let look (n : String) : Option String := (files.find? (·.1 = n)).map (·.2)
+  match MalVerif.Py.Visitor.compileGen look 16 (.str root) with
+  | .ok v => pure (jO [("spec", vToJson v)])
+  | .error e => pure (jO [("error", jS (reprStr e))])
+
 def dispatch (j : Json) : R Json := do
   let op ← jfield jstr j "op"
   match op with
@@ -644,6 +700,8 @@ def dispatch (j : Json) : R Json := do
   | "lex" => opLex j
   | "ser_model" => opSerModel j
   | "load_doc" => opLoadDoc j
+  | "tree" => opTree j
+  | "visit" => opVisit j
   | _ => throw "bad-op"
 
 def handle (line : String) : String :=
